@@ -28,6 +28,13 @@
 
      "lockacrosswrite" development-mode WriteString keeps watchStateMutex while it writes the string to the caller's writer
 
+     "sharederr"      a library component that is created once and rendered by all goroutines (templ.Join) keeps
+                      the error of the part it rendered in a variable of the COMPONENT instead of the call
+
+   Shared components.  What every goroutine renders is one component value created once (a package-level
+   templ.Join(...) around the parts): it sets err from the part it rendered and then returns err.  Isolated
+   covers the returned error: a render fails iff its own writer failed.
+
    Stalled writers.  The writer of render Stall does not accept anything until the environment action Unstall
    happens -- which may be never.  Its document is larger than the buffer, so each of its writes (and its flush)
    waits for the writer.  Invariant IndependentOfStalledWriters: no render waits for a lock whose holder is
@@ -63,6 +70,7 @@ VARIABLES pc,        \* per goroutine
           sheld, smade, scr,       \* scratch kind: per goroutine the object in use (0 = none), objects created, per object its content
           buf,       \* per buffer object: [data, w, alias]  data = tokens buffered in its private bufio.Writer, w = the
                      \* destination it points at (a reference), alias = goroutine whose bufio.Writer it uses INSTEAD (0 = none)
+          lerr, sherr, \* err of the shared component: per call (as coded) / one variable of the component ("sharederr")
           stalled,   \* the writer of render Stall does not accept bytes (yet)
           dk,        \* per goroutine: kind of its destination
           bw,        \* per goroutine: its own buffered writer in front of its output: [data, tgt]
@@ -75,7 +83,7 @@ VARIABLES pc,        \* per goroutine
           lit,       \* per goroutine: version of the literal list it got from getWatchedStrings
           nextid, ids, tmpid       \* once-handle ids: counter, ids handed out (bag as sequence), per-goroutine read
 
-vars == <<pc, m, i, held, holders, pooled, made, sheld, smade, scr, buf, stalled, dk, bw, sink, res, mutex, cache, file, inmap, lit, nextid, ids, tmpid>>
+vars == <<pc, m, i, held, holders, pooled, made, sheld, smade, scr, buf, lerr, sherr, stalled, dk, bw, sink, res, mutex, cache, file, inmap, lit, nextid, ids, tmpid>>
 
 R(g) == <<g, m[g]>>
 \* tokens without the 4th component (literal: file version; scratch step 0: the data read back from the object)
@@ -93,6 +101,7 @@ Init == /\ pc = [g \in G |-> "id"] /\ m = [g \in G |-> 1] /\ i = [g \in G |-> 1]
         /\ holders = {} /\ pooled = [o \in Obj |-> 0] /\ made = 0
         /\ sheld = [g \in G |-> 0] /\ smade = 0 /\ scr = [b \in Bufs |-> {}]
         /\ buf = [b \in Bufs |-> [data |-> <<>>, w |-> NoRef, alias |-> 0]]
+        /\ lerr = [g \in G |-> "nil"] /\ sherr = "nil"
         /\ stalled = (Stall # <<0, 0>>)
         /\ dk \in [G -> DestKinds]
         /\ bw = [g \in G |-> [data |-> <<>>, tgt |-> UndRef(g)]]
@@ -107,13 +116,13 @@ Goto(g, l) == pc' = [pc EXCEPT ![g] = l]
 NewHandle(g) ==
     /\ pc[g] = "id"
     /\ IF Bug = "idrace"
-       THEN /\ tmpid' = [tmpid EXCEPT ![g] = nextid] /\ Goto(g, "id2") /\ UNCHANGED <<stalled, dk, bw, sheld, smade, scr, nextid, ids>>
+       THEN /\ tmpid' = [tmpid EXCEPT ![g] = nextid] /\ Goto(g, "id2") /\ UNCHANGED <<lerr, sherr, stalled, dk, bw, sheld, smade, scr, nextid, ids>>
        ELSE /\ nextid' = nextid + 1 /\ ids' = Append(ids, nextid + 1) /\ Goto(g, "get") /\ UNCHANGED tmpid
-    /\ UNCHANGED <<stalled, dk, bw, sheld, smade, scr, m, i, held, holders, pooled, made, buf, sink, res, mutex, cache, file, inmap, lit>>
+    /\ UNCHANGED <<lerr, sherr, stalled, dk, bw, sheld, smade, scr, m, i, held, holders, pooled, made, buf, sink, res, mutex, cache, file, inmap, lit>>
 NewHandle2(g) ==
     /\ pc[g] = "id2"
     /\ nextid' = tmpid[g] + 1 /\ ids' = Append(ids, tmpid[g] + 1) /\ Goto(g, "get")
-    /\ UNCHANGED <<stalled, dk, bw, sheld, smade, scr, m, i, held, holders, pooled, made, buf, sink, res, mutex, cache, file, inmap, lit, tmpid>>
+    /\ UNCHANGED <<lerr, sherr, stalled, dk, bw, sheld, smade, scr, m, i, held, holders, pooled, made, buf, sink, res, mutex, cache, file, inmap, lit, tmpid>>
 
 \* b = bufferPool.Get().(*Buffer)
 DestRef(g) == IF dk[g] = "plain" THEN SinkRef(R(g)) ELSE BwRef(g)
@@ -124,7 +133,7 @@ Existing(g) ==
     /\ pc[g] = "get" /\ dk[g] = "buffer"
     /\ i' = [i EXCEPT ![g] = 1]
     /\ Goto(g, Body(g))
-    /\ UNCHANGED <<stalled, dk, bw, sheld, smade, scr, m, held, holders, pooled, made, buf, sink, res, mutex, cache, file, inmap, lit, nextid, ids, tmpid>>
+    /\ UNCHANGED <<lerr, sherr, stalled, dk, bw, sheld, smade, scr, m, held, holders, pooled, made, buf, sink, res, mutex, cache, file, inmap, lit, nextid, ids, tmpid>>
 
 Get(g) ==
     /\ pc[g] = "get" /\ dk[g] # "buffer"
@@ -134,7 +143,7 @@ Get(g) ==
           /\ pooled' = IF pooled[BufObj(b)] > 0 THEN BGet(pooled, BufObj(b)) ELSE pooled
           /\ made' = IF pooled[BufObj(b)] = 0 THEN made + 1 ELSE made
     /\ Goto(g, "reset")
-    /\ UNCHANGED <<stalled, dk, bw, sheld, smade, scr, m, i, buf, sink, res, mutex, cache, file, inmap, lit, nextid, ids, tmpid>>
+    /\ UNCHANGED <<lerr, sherr, stalled, dk, bw, sheld, smade, scr, m, i, buf, sink, res, mutex, cache, file, inmap, lit, nextid, ids, tmpid>>
 
 \* b.Reset(w)
 Reset(g) ==
@@ -152,7 +161,7 @@ Reset(g) ==
                       ELSE [bw EXCEPT ![a] = [data |-> <<>>, tgt |-> DestRef(g)]]
     /\ i' = [i EXCEPT ![g] = 1]
     /\ Goto(g, Body(g))
-    /\ UNCHANGED <<stalled, dk, sheld, smade, scr, m, held, holders, pooled, made, sink, res, mutex, cache, file, inmap, lit, nextid, ids, tmpid>>
+    /\ UNCHANGED <<lerr, sherr, stalled, dk, sheld, smade, scr, m, held, holders, pooled, made, sink, res, mutex, cache, file, inmap, lit, nextid, ids, tmpid>>
 
 \* a write of the render: into the caller's own Buffer (kind "buffer"), else into the pool buffer's bufio.Writer --
 \* which is the adopting goroutine's writer if there is an alias
@@ -171,21 +180,21 @@ SGet(g) ==
           /\ pooled' = IF pooled[ScrObj(b)] > 0 THEN BGet(pooled, ScrObj(b)) ELSE pooled
           /\ smade' = IF pooled[ScrObj(b)] = 0 THEN smade + 1 ELSE smade
     /\ Goto(g, "sadd")
-    /\ UNCHANGED <<stalled, dk, bw, scr, m, i, held, made, buf, sink, res, mutex, cache, file, inmap, lit, nextid, ids, tmpid>>
+    /\ UNCHANGED <<lerr, sherr, stalled, dk, bw, scr, m, i, held, made, buf, sink, res, mutex, cache, file, inmap, lit, nextid, ids, tmpid>>
 
 \* the render puts its own data into the object (class names, rendered bytes, ...)
 SAdd(g) ==
     /\ pc[g] = "sadd"
     /\ scr' = [scr EXCEPT ![sheld[g]] = @ \cup {R(g)}]
     /\ Goto(g, "sread")
-    /\ UNCHANGED <<stalled, dk, bw, sheld, smade, m, i, held, holders, pooled, made, buf, sink, res, mutex, cache, file, inmap, lit, nextid, ids, tmpid>>
+    /\ UNCHANGED <<lerr, sherr, stalled, dk, bw, sheld, smade, m, i, held, holders, pooled, made, buf, sink, res, mutex, cache, file, inmap, lit, nextid, ids, tmpid>>
 
 \* ... and reads the result back into its document
 SRead(g) ==
     /\ pc[g] = "sread"
     /\ Emit(g, <<g, m[g], 0, scr[sheld[g]]>>)
     /\ Goto(g, "sput")
-    /\ UNCHANGED <<stalled, dk, sheld, smade, scr, m, i, held, holders, pooled, made, sink, res, mutex, cache, file, inmap, lit, nextid, ids, tmpid>>
+    /\ UNCHANGED <<lerr, sherr, stalled, dk, sheld, smade, scr, m, i, held, holders, pooled, made, sink, res, mutex, cache, file, inmap, lit, nextid, ids, tmpid>>
 
 \* release: clear the object and Put it; the render does not touch it afterwards
 SPut(g) ==
@@ -195,7 +204,7 @@ SPut(g) ==
     /\ holders' = HDrop(holders, R(g), ScrObj(sheld[g]))
     /\ IF Bug = "doubleput" THEN Goto(g, "sput2") /\ UNCHANGED sheld
                             ELSE Goto(g, IF DevMode THEN "lock" ELSE "write") /\ sheld' = [sheld EXCEPT ![g] = 0]
-    /\ UNCHANGED <<stalled, dk, bw, smade, m, i, held, made, buf, sink, res, mutex, cache, file, inmap, lit, nextid, ids, tmpid>>
+    /\ UNCHANGED <<lerr, sherr, stalled, dk, bw, smade, m, i, held, made, buf, sink, res, mutex, cache, file, inmap, lit, nextid, ids, tmpid>>
 
 \* "doubleput": the caller's deferred release clears and Puts the same object once more
 SPut2(g) ==
@@ -204,7 +213,7 @@ SPut2(g) ==
     /\ pooled' = BPut(pooled, ScrObj(sheld[g]))
     /\ sheld' = [sheld EXCEPT ![g] = 0]
     /\ Goto(g, IF DevMode THEN "lock" ELSE "write")
-    /\ UNCHANGED <<stalled, dk, bw, smade, m, i, held, holders, made, buf, sink, res, mutex, cache, file, inmap, lit, nextid, ids, tmpid>>
+    /\ UNCHANGED <<lerr, sherr, stalled, dk, bw, smade, m, i, held, holders, made, buf, sink, res, mutex, cache, file, inmap, lit, nextid, ids, tmpid>>
 
 (* development mode: runtime.WriteString -> getWatchedStrings(txtFilePath) *)
 CacheLock(g) ==
@@ -212,34 +221,34 @@ CacheLock(g) ==
     /\ IF Bug = "cacheunlocked"
        THEN Goto(g, "lookup") /\ UNCHANGED mutex            \* fast path reads the map before locking
        ELSE mutex = 0 /\ mutex' = g /\ Goto(g, "lookup")
-    /\ UNCHANGED <<stalled, dk, bw, sheld, smade, scr, m, i, held, holders, pooled, made, buf, sink, res, cache, file, inmap, lit, nextid, ids, tmpid>>
+    /\ UNCHANGED <<lerr, sherr, stalled, dk, bw, sheld, smade, scr, m, i, held, holders, pooled, made, buf, sink, res, cache, file, inmap, lit, nextid, ids, tmpid>>
 
 \* state, cached := watchModeCache[txtFilePath]  ... begins touching the map
 CacheLookup(g) ==
     /\ pc[g] = "lookup"
     /\ inmap' = inmap \cup {g}
     /\ Goto(g, "decide")
-    /\ UNCHANGED <<stalled, dk, bw, sheld, smade, scr, m, i, held, holders, pooled, made, buf, sink, res, mutex, cache, file, lit, nextid, ids, tmpid>>
+    /\ UNCHANGED <<lerr, sherr, stalled, dk, bw, sheld, smade, scr, m, i, held, holders, pooled, made, buf, sink, res, mutex, cache, file, lit, nextid, ids, tmpid>>
 
 \* hit (fresh enough / not modified): return state.strings; miss or modified: cacheStrings writes the map
 CacheDecide(g) ==
     /\ pc[g] = "decide"
     /\ \/ /\ cache.cached                                   \* time.Since(modTime) < 100ms, or ModTime not after
-          /\ lit' = [lit EXCEPT ![g] = cache.ver] /\ UNCHANGED <<stalled, dk, bw, sheld, smade, scr, cache, mutex>>
+          /\ lit' = [lit EXCEPT ![g] = cache.ver] /\ UNCHANGED <<lerr, sherr, stalled, dk, bw, sheld, smade, scr, cache, mutex>>
        \/ /\ ~cache.cached \/ file > cache.ver              \* cacheStrings: read the file, store it
           /\ (Bug = "cacheunlocked") => (mutex = 0 \/ mutex = g)
           /\ cache' = [cached |-> TRUE, ver |-> file]
           /\ lit' = [lit EXCEPT ![g] = file]
           /\ mutex' = IF Bug = "cacheunlocked" THEN g ELSE mutex
     /\ Goto(g, IF Bug = "lockacrosswrite" THEN "write" ELSE "unlock")      \* the seeded defect unlocks after the write only
-    /\ UNCHANGED <<stalled, dk, bw, sheld, smade, scr, m, i, held, holders, pooled, made, buf, sink, res, file, inmap, nextid, ids, tmpid>>
+    /\ UNCHANGED <<lerr, sherr, stalled, dk, bw, sheld, smade, scr, m, i, held, holders, pooled, made, buf, sink, res, file, inmap, nextid, ids, tmpid>>
 
 CacheUnlock(g) ==
     /\ pc[g] = "unlock"
     /\ inmap' = inmap \ {g}
     /\ mutex' = IF mutex = g THEN 0 ELSE mutex
     /\ Goto(g, "write")
-    /\ UNCHANGED <<stalled, dk, bw, sheld, smade, scr, m, i, held, holders, pooled, made, buf, sink, res, cache, file, lit, nextid, ids, tmpid>>
+    /\ UNCHANGED <<lerr, sherr, stalled, dk, bw, sheld, smade, scr, m, i, held, holders, pooled, made, buf, sink, res, cache, file, lit, nextid, ids, tmpid>>
 
 \* "lockacrosswrite": defer watchStateMutex.Unlock() runs when WriteString returns, after io.WriteString(w, s)
 CacheUnlockAfterWrite(g) ==
@@ -247,12 +256,12 @@ CacheUnlockAfterWrite(g) ==
     /\ inmap' = inmap \ {g}
     /\ mutex' = IF mutex = g THEN 0 ELSE mutex
     /\ Goto(g, IF i[g] <= DocLen THEN "lock" ELSE IF dk[g] = "buffer" THEN "cflush" ELSE "release")
-    /\ UNCHANGED <<stalled, dk, bw, sheld, smade, scr, m, i, held, holders, pooled, made, buf, sink, res, cache, file, lit, nextid, ids, tmpid>>
+    /\ UNCHANGED <<lerr, sherr, stalled, dk, bw, sheld, smade, scr, m, i, held, holders, pooled, made, buf, sink, res, cache, file, lit, nextid, ids, tmpid>>
 
 \* the environment: the stalled writer starts accepting bytes (this may never happen)
 Unstall ==
     /\ stalled /\ stalled' = FALSE
-    /\ UNCHANGED <<dk, bw, sheld, smade, scr, pc, m, i, held, holders, pooled, made, buf, sink, res, mutex, cache, file, inmap, lit, nextid, ids, tmpid>>
+    /\ UNCHANGED <<lerr, sherr, dk, bw, sheld, smade, scr, pc, m, i, held, holders, pooled, made, buf, sink, res, mutex, cache, file, inmap, lit, nextid, ids, tmpid>>
 
 \* a render whose writer is stalled waits inside its write
 WaitsForWriter(g) == R(g) = Stall /\ stalled
@@ -261,7 +270,7 @@ WaitsForWriter(g) == R(g) = Stall /\ stalled
 FileWrite ==
     /\ DevMode /\ file < MaxVer
     /\ file' = file + 1
-    /\ UNCHANGED <<stalled, dk, bw, sheld, smade, scr, pc, m, i, held, holders, pooled, made, buf, sink, res, mutex, cache, inmap, lit, nextid, ids, tmpid>>
+    /\ UNCHANGED <<lerr, sherr, stalled, dk, bw, sheld, smade, scr, pc, m, i, held, holders, pooled, made, buf, sink, res, mutex, cache, inmap, lit, nextid, ids, tmpid>>
 
 \* io.WriteString(buffer, literal i): buffered in the render's buffer object
 Write(g) ==
@@ -271,7 +280,7 @@ Write(g) ==
     /\ Goto(g, IF DevMode /\ Bug = "lockacrosswrite" THEN "unlockw"
                 ELSE IF i[g] < DocLen THEN (IF DevMode THEN "lock" ELSE "write")
                 ELSE IF dk[g] = "buffer" THEN "cflush" ELSE "release")
-    /\ UNCHANGED <<stalled, dk, sheld, smade, scr, m, held, holders, pooled, made, sink, res, mutex, cache, file, inmap, lit, nextid, ids, tmpid>>
+    /\ UNCHANGED <<lerr, sherr, stalled, dk, sheld, smade, scr, m, held, holders, pooled, made, sink, res, mutex, cache, file, inmap, lit, nextid, ids, tmpid>>
 
 \* ReleaseBuffer: err = b.Flush(); bufferPool.Put(b)      ("putfirst": the other way round)
 \* moving buffered tokens on to where a writer points: a render's plain writer (the writer of render FailAt fails
@@ -293,19 +302,30 @@ Flush(g) ==
        /\ sink' = SinkAfter(tgt, data)
        /\ buf' = [buf EXCEPT ![b].data = <<>>]
        /\ bw' = BwAfter(IF a = 0 THEN bw ELSE [bw EXCEPT ![a].data = <<>>], tgt, data)
-       /\ res' = IF dk[g] = "plain" THEN [res EXCEPT ![R(g)] = IF tgt = SinkRef(FailAt) THEN "err" ELSE "nil"] ELSE res
+       \* the shared component: err = part.Render(ctx, w)
+       /\ LET e == IF tgt = SinkRef(FailAt) THEN "err" ELSE "nil" IN
+          IF dk[g] # "plain" THEN UNCHANGED <<lerr, sherr>>
+          ELSE IF Bug = "sharederr" THEN sherr' = e /\ UNCHANGED lerr
+          ELSE lerr' = [lerr EXCEPT ![g] = e] /\ UNCHANGED sherr
     /\ IF Bug = "putfirst"
-       THEN /\ holders' = HDrop(holders, R(g), BufObj(held[g])) /\ held' = [held EXCEPT ![g] = 0] /\ Goto(g, "end")
+       THEN /\ holders' = HDrop(holders, R(g), BufObj(held[g])) /\ held' = [held EXCEPT ![g] = 0] /\ Goto(g, IF dk[g] = "plain" THEN "jret" ELSE "end")
        ELSE /\ holders' = HDrop(holders, R(g), BufObj(held[g])) /\ UNCHANGED held /\ Goto(g, "put")
-    /\ UNCHANGED <<stalled, dk, sheld, smade, scr, m, i, pooled, made, mutex, cache, file, inmap, lit, nextid, ids, tmpid>>
+    /\ UNCHANGED <<res, stalled, dk, sheld, smade, scr, m, i, pooled, made, mutex, cache, file, inmap, lit, nextid, ids, tmpid>>
 
 Put(g) ==
     /\ pc[g] = IF Bug = "putfirst" THEN "release" ELSE "put"
     /\ pooled' = BPut(pooled, BufObj(held[g]))
     /\ IF Bug = "putfirst"
        THEN Goto(g, "flush2") /\ UNCHANGED held
-       ELSE Goto(g, IF dk[g] = "plain" THEN "end" ELSE "cflush") /\ held' = [held EXCEPT ![g] = 0]
-    /\ UNCHANGED <<stalled, dk, bw, sheld, smade, scr, m, i, holders, made, buf, sink, res, mutex, cache, file, inmap, lit, nextid, ids, tmpid>>
+       ELSE Goto(g, IF dk[g] = "plain" THEN "jret" ELSE "cflush") /\ held' = [held EXCEPT ![g] = 0]
+    /\ UNCHANGED <<lerr, sherr, stalled, dk, bw, sheld, smade, scr, m, i, holders, made, buf, sink, res, mutex, cache, file, inmap, lit, nextid, ids, tmpid>>
+
+\* the shared component returns: return err
+JoinReturn(g) ==
+    /\ pc[g] = "jret"
+    /\ res' = [res EXCEPT ![R(g)] = IF Bug = "sharederr" THEN sherr ELSE lerr[g]]
+    /\ Goto(g, "end")
+    /\ UNCHANGED <<lerr, sherr, stalled, dk, bw, sheld, smade, scr, m, i, held, holders, pooled, made, buf, sink, mutex, cache, file, inmap, lit, nextid, ids, tmpid>>
 
 \* Render has returned; the caller flushes its own buffered writer
 CallerFlush(g) ==
@@ -314,18 +334,18 @@ CallerFlush(g) ==
     /\ bw' = BwAfter([bw EXCEPT ![g].data = <<>>], bw[g].tgt, bw[g].data)
     /\ res' = [res EXCEPT ![R(g)] = "nil"]
     /\ Goto(g, "end")
-    /\ UNCHANGED <<stalled, dk, sheld, smade, scr, m, i, held, holders, pooled, made, buf, mutex, cache, file, inmap, lit, nextid, ids, tmpid>>
+    /\ UNCHANGED <<lerr, sherr, stalled, dk, sheld, smade, scr, m, i, held, holders, pooled, made, buf, mutex, cache, file, inmap, lit, nextid, ids, tmpid>>
 
 \* the goroutine starts its next render
 EndRender(g) ==
     /\ pc[g] = "end"
     /\ IF m[g] < M THEN m' = [m EXCEPT ![g] = @ + 1] /\ Goto(g, "get")
                    ELSE UNCHANGED m /\ Goto(g, "done")
-    /\ UNCHANGED <<stalled, dk, bw, sheld, smade, scr, i, held, holders, pooled, made, buf, sink, res, mutex, cache, file, inmap, lit, nextid, ids, tmpid>>
+    /\ UNCHANGED <<lerr, sherr, stalled, dk, bw, sheld, smade, scr, i, held, holders, pooled, made, buf, sink, res, mutex, cache, file, inmap, lit, nextid, ids, tmpid>>
 
 Next == \/ \E g \in G : \/ NewHandle(g) \/ NewHandle2(g) \/ Existing(g) \/ Get(g) \/ Reset(g) \/ SGet(g) \/ SAdd(g) \/ SRead(g) \/ SPut(g) \/ SPut2(g)
                         \/ CacheLock(g) \/ CacheLookup(g)
-                        \/ CacheDecide(g) \/ CacheUnlock(g) \/ CacheUnlockAfterWrite(g) \/ Write(g) \/ Flush(g) \/ Put(g) \/ CallerFlush(g) \/ EndRender(g)
+                        \/ CacheDecide(g) \/ CacheUnlock(g) \/ CacheUnlockAfterWrite(g) \/ Write(g) \/ Flush(g) \/ Put(g) \/ JoinReturn(g) \/ CallerFlush(g) \/ EndRender(g)
         \/ FileWrite \/ Unstall
 
 Spec == Init /\ [][Next]_vars
@@ -341,6 +361,7 @@ Isolated == \A r \in Render :
                /\ IsPrefix(Strip(sink[r]), Doc(r))
                /\ res[r] = "nil" => Strip(sink[r]) = Doc(r)
                /\ res[r] = "err" => r = FailAt
+               /\ (res[r] # "run" /\ r = FailAt /\ dk[r[1]] = "plain") => res[r] = "err"    \* the returned error is the render's own
                \* what a render read back from its scratch object is its own data only
                /\ \A k \in 1..Len(sink[r]) : sink[r][k][3] = 0 => sink[r][k][4] = {r}
 
